@@ -35,4 +35,12 @@ class Ref(Expression):
         out += (STATUS, RESULT, POS) << Yield((CALL, func, POS))
 
     def argumentize(self, out, flags):
+        # A rule that is passed as an argument is looked up like any other
+        # reference, so that a derived grammar's override is the one passed.
+        if (
+            flags.uses_context
+            and not self.is_local
+            and not self.resolved.startswith('_super_ctx.')
+        ):
+            return Code(f'_ctx.{self.resolved}')
         return Code(self.resolved)
